@@ -1,15 +1,17 @@
 """Configuration of ./check C12 (see lib/registry.py for the fields)."""
 CFG = dict(
-    claim="Theorems C12_no_crash, C12_never_stalls (Q), C12_dispatch_sound, C12_dispatch_unary, C12_dispatch_complete (Q), C12_dispatch_stream, C12_reset, C12_reset_accounting, C12_reset_written (Q), C12_probe (Q) in coq/Props/C12.v, over all label sequences of the "
+    claim="Theorems C12_no_crash, C12_stays_serving (no envelope sequence / handler behaviour ends the connection), C12_never_stalls (Q), C12_dispatch_sound, C12_dispatch_unary, C12_dispatch_complete (Q), C12_dispatch_stream, C12_reset, C12_reset_accounting, C12_reset_written (Q), C12_probe (Q) in coq/Props/C12.v, over all label sequences of the "
           "small-step model coq/Model/Server.v of one server connection (arbitrary peer, arbitrary handler behaviour, any "
           "interleaving); the model is run lock-step against the real goat.Server.Serve on every run.",
     props="Props/C12.v",
-    theorems=["C12_no_crash", "C12_never_stalls", "C12_dispatch_sound", "C12_dispatch_unary", "C12_dispatch_complete", "C12_dispatch_stream", "C12_reset", "C12_reset_accounting", "C12_reset_written", "C12_probe"],
+    theorems=["C12_no_crash", "C12_stays_serving", "C12_never_stalls", "C12_dispatch_sound", "C12_dispatch_unary", "C12_dispatch_complete", "C12_dispatch_stream", "C12_reset", "C12_reset_accounting", "C12_reset_written", "C12_probe"],
     imports=["Model.Method", "Model.Client", "Model.Server", "Check.ServerC", "Check.C12c"],
     case_type="c12case",
     find_bad_from="find_bad_from",
-    go_tags="sv",
-    rigs=[dict(test="TestC12", timeout_quick=300, timeout_thorough=1500)],
+    go_tags="sv,st",
+    rigs=[dict(test="TestC12", timeout_quick=300, timeout_thorough=1500),
+          # builder st: parseRawMethod re-translated from server.go on every run, proved equal to Model/Method.v (harness/st_gen_test.go)
+          dict(test="TestGenEquivC12", timeout_quick=120, timeout_thorough=300)],
     reason_text={"7": "the server process died in this scenario (panic)", "8": "the connection never became quiescent again in this scenario: a goroutine waits for ever for a lock (wedge)", "9": "isolation: a stream handler received a message that was not delivered for its id after its own opening envelope (or twice, or out of order)","1": "the real server's observation differs from every outcome of the Gallina model (Model/Server.v, all orders of internal rules), or parseRawMethod / the method table differs from Model/Method.v",
                  "2": "dispatch: a handler was invoked for an envelope that must not start one, not invoked for one that must, invoked twice, or with another payload / metadata / method / id",
                  "3": "reset: a body (or undecodable open) for an unknown stream id was not answered by exactly one RST_STREAM for that id with source and destination swapped, or a reset was written where none is due",
@@ -17,7 +19,7 @@ CFG = dict(
                  "5": "the server wrote an envelope of its own that the protocol does not call for",
                  "6": "the read loop was blocked or the connection ended in a conversation without faults whose handlers consume their input"},
     rule="lock-step in synctest bubbles (real goat.Server.Serve on a scripted transport, handler bodies gated by the schedule; one action, "
-         "synctest.Wait, snapshot): ALL envelope sequences of length <= 2 plus a seeded third of those of length 3 (quick: ~8.1 thousand; the full 22.8 thousand of length <= 3 take ~30 s on an idle machine but several minutes on the loaded one) / ALL of length <= 3 plus a seeded sample of 20000 of the 6.1*10^5 sequences of length 4 (thorough) over an alphabet of 28 envelope shapes (each field "
+         "synctest.Wait, snapshot): ALL envelope sequences of length <= 2 plus a seeded third of those of length 3 (quick: ~8.1 thousand; the full 22.8 thousand of length <= 3 take ~30 s on an idle machine but several minutes on the loaded one) / ALL of length <= 3 plus a seeded sample of 4000 of the 6.1*10^5 sequences of length 4 (thorough) over an alphabet of 28 envelope shapes (each field "
          "present / absent / undecodable, 2 stream ids, unary and stream methods, wrong destination, 4 kinds of bad method string, unknown "
          "service / method, body / trailer / reset / other-type reset for unknown and open ids, duplicate opens, undecodable bodies), each "
          "followed by a valid unary probe whose reply must arrive; seeded random sequences of length 4..40; field-level mutations of valid "
